@@ -215,6 +215,11 @@ def b_int(it, args, kw, fr):
     if isinstance(v, VStr):
         # decimal digits only (ASCII); anything else: ValueError (Unicode digits and
         # surrounding whitespace/sign are also accepted by CPython: modelled as "some int")
+        if getattr(it.reg, "regex_abstract", False):
+            ok = uf("int_parses", StringS, BoolS)(v.z)
+            if it.ctx.branch(ok, "int-parses"):
+                return VInt(uf("int_of_str", StringS, IntS)(v.z))
+            it.raise_("ValueError", VStr("invalid literal for int()"))
         isdec = z3.InRe(v.z, z3.Plus(z3.Range("0", "9")))
         if it.ctx.branch(isdec):
             return VInt(z3.StrToInt(v.z))
@@ -533,13 +538,28 @@ def b_hex(it, args, kw, fr):
     return VStr(z3.String(it.ctx.namer("hex")), "str")
 
 
+def b_frozenset(it, args, kw, fr):
+    if not args:
+        r = VTuple([])
+        r.hashed = True
+        return r
+    v = it.force(args[0])
+    if isinstance(v, (VList, VTuple)):
+        r = VTuple(list(v.items))
+        r.hashed = True      # membership tests hash the probe (unhashable probe => TypeError)
+        return r
+    if isinstance(v, VSet):
+        return VSet(v.z, v.elem)
+    raise OutOfSubset("frozenset(x)")
+
+
 BUILTIN_IMPL = {
     "len": b_len, "isinstance": b_isinstance, "int": b_int, "str": b_str, "repr": b_repr, "bool": b_bool,
     "bytes": b_bytes, "list": b_list, "tuple": b_tuple, "dict": b_dict, "set": b_set, "range": b_range,
     "min": b_minmax("min"), "max": b_minmax("max"), "print": b_print, "type": b_type, "getattr": b_getattr,
     "hasattr": b_hasattr, "sorted": b_sorted, "ord": b_ord, "chr": b_chr, "abs": b_abs, "float": b_float,
     "any": b_any_all("any"), "all": b_any_all("all"), "filter": b_filter, "enumerate": b_enumerate, "zip": b_zip,
-    "callable": b_callable, "id": b_id, "object": b_object, "sum": b_sum, "hex": b_hex,
+    "callable": b_callable, "id": b_id, "object": b_object, "sum": b_sum, "hex": b_hex, "frozenset": b_frozenset,
 }
 
 
@@ -1026,14 +1046,26 @@ def install_default_models(reg):
                 it.raise_("TypeError", VStr("cannot use a string pattern on a bytes-like object"))
             if isinstance(pat, bytes):
                 pat = pat.decode("latin-1")
+            mo = VObj("re.Match", {"string": s, "pattern": VStr(pat)})
+            if getattr(it.reg, "regex_abstract", False):
+                # composed-machine level: whether a string matches is an uninterpreted function of
+                # (pattern, string) - an over-approximation that keeps string theory out of the paths
+                m = uf("re_matches", StringS, StringS, BoolS)(z3.StringVal(pat), s.z)
+                return VOpt(z3.Not(m), mo)
             try:
                 r = rx.compile_search(pat, mode, unicode_digits=(s.kind == "str"))
             except rx.RegexUnsupported as e:
                 raise OutOfSubset(f"regex {pat!r}: {e}")
-            mo = VObj("re.Match", {"string": s, "pattern": VStr(pat)})
             return VOpt(z3.Not(z3.InRe(s.z, r)), mo)
         return f
 
+    def match_group(it, recv, meth, args, kwargs, fr):
+        """m.group(k): modelled as some substring of the subject (k >= 1) or the whole match (k == 0)"""
+        g = z3.String(it.ctx.namer("group"))
+        it.ctx.assume(z3.Contains(recv.fields["string"].z, g))
+        return VStr(g, recv.fields["string"].kind)
+
+    reg.boundary["re.Match.group"] = match_group
     em["re.search"] = re_search("search")
     em["re.match"] = re_search("match")
     em["re.fullmatch"] = re_search("fullmatch")
